@@ -182,7 +182,7 @@ class Paths(Fetched):
         return [{"m": m, "src": src, "kind": kind} for kind, m, src in CORPUS_MASTERS]
 
     def cases(self, rng, tier):
-        n = 400 if tier == "quick" else 9000
+        n = 1500 if tier == "quick" else 9000
         for i in range(n):
             kind, nodes, src = self.gen(rng, i)
             yield {"m": nodes, "src": src, "kind": kind}
@@ -317,7 +317,7 @@ class Guard(Fetched):
         return out
 
     def cases(self, rng, tier):
-        n = 250 if tier == "quick" else 5000
+        n = 1000 if tier == "quick" else 5000
         for i in range(n):
             kind, nodes, src = self.gen(rng, i)
             for _ in range(4):
@@ -401,7 +401,7 @@ class Guard(Fetched):
                 return "second __inject__ of %r: %r" % (full, after[0])
             if after[1] != ["ok"]:
                 return "assignment after __inject__ of %r: %r" % (full, after[1])
-            if name not in after[2]:
+            if name not in after[2] and not dunder(name):
                 return "injected name %r is no attribute afterwards" % (full,)
         return None
 
